@@ -160,6 +160,11 @@ class Translator:
                 if v == "div" and ta == "int" and tb == "int":
                     raise Untranslatable(f"integer / integer is dialect-dependent (truncating on SQLite and Postgres): {e.sql()[:80]}")
                 return f"(Expr.arith Arith.{v} {a} {b})", ("int" if ta == tb == "int" else "rat")
+        if isinstance(e, exp.DPipe):
+            (a, ta), (b, tb) = self.expr_t(e.this, scope), self.expr_t(e.expression, scope)
+            if not (ta in ("str", "int", "strint") and tb in ("str", "int", "strint")):
+                raise Untranslatable(f"|| on values of type {ta}, {tb} (only strings and integers have a dialect-independent text): {e.sql()[:80]}")
+            return f"(Expr.concat {a} {b})", "str"
         if isinstance(e, exp.Case):
             if e.this is not None:
                 raise Untranslatable("CASE <operand> WHEN")
@@ -1303,8 +1308,236 @@ def write_em() -> list[str]:
     return errors
 
 
+# --------------------------------------------------------------------------------------------------------------- blocking spec
+BLOCK_N_MARK = 4
+BLOCK_OUT = "__splink__blocked_id_pairs"
+# link type the code blocks with -> (settings link type, number of input tables, Lean name)
+BLOCK_LTS = [
+    ("dedupe_only", "dedupe_only", 1, "dedupeOnly"),
+    ("link_and_dedupe", "link_and_dedupe", 2, "linkAndDedupe"),
+    ("link_only", "link_only", 3, "linkOnly"),
+    ("two_dataset_link_only", "link_only", 2, "twoDatasetLinkOnly"),
+]
+# at least two different rule lists per link type (indices of marker rules, in list order) + the empty list
+BLOCK_RULE_LISTS = [[0, 1, 2, 3], [2, 0, 1], []]
+
+
+def _block_marker(i: int) -> str:
+    """A marker rule: a top-level OR (the loosest-binding form a rule can have), over columns no other part of the SQL mentions.  If a
+    splice site of the emitted text lacked its parentheses the marker would come apart in the parse and the capture refuses."""
+    return f"l.zm{i} = r.zm{i} OR l.zn{i} = r.zn{i}"
+
+
+def _block_run(settings_lt: str, n_tables: int, rule_idx: list[int]):
+    """Run the real `deterministic_link` on tiny tables; -> (text of the `__splink__blocked_id_pairs` statement, names it reads)."""
+    import pandas as pd
+
+    from splink import DuckDBAPI, Linker, SettingsCreator
+
+    cols = {"unique_id": [1, 2]}
+    for i in range(BLOCK_N_MARK):
+        cols[f"zm{i}"] = ["x", "x"]
+        cols[f"zn{i}"] = ["x", "y"]
+    dfs = [pd.DataFrame(cols) for _ in range(n_tables)]
+    api = DuckDBAPI()
+    settings = SettingsCreator(link_type=settings_lt, comparisons=[], blocking_rules_to_generate_predictions=[_block_marker(i) for i in rule_idx])
+    linker = Linker(dfs if n_tables > 1 else dfs[0], settings, api)
+    with Capture() as cap:
+        linker.inference.deterministic_link().as_record_dict()
+    pm = _phys_map(cap.rec)
+    found = [_norm(_subst(sql, pm)) for e in cap.rec for nm, sql in e["ctes"] if nm == BLOCK_OUT]
+    if len(found) != 1:
+        raise Untranslatable(f"deterministic_link emitted {len(found)} statements named {BLOCK_OUT}")
+    ci = linker._settings_obj.column_info_settings
+    return found[0], ci
+
+
+def _block_schema(with_sd: bool, pad: int):
+    cols = (["source_dataset"] if with_sd else []) + ["unique_id"]
+    types = (["str"] if with_sd else []) + ["strint"]
+    for i in range(BLOCK_N_MARK):
+        cols += [f"zm{i}", f"zn{i}"]
+        types += ["str", "str"]
+    cols += [f"zpad{i}" for i in range(pad)]
+    types += ["any"] * pad
+    return cols, types
+
+
+def _block_translate(sql: str, with_sd: bool, pad: int):
+    """One per-rule SELECT -> (term with markers replaced by @R<i>@ and the table width by `w`, table names).  Raises Untranslatable."""
+    import sqlglot
+
+    cols, types = _block_schema(with_sd, pad)
+    W = len(cols)
+    names = sorted(set(re.findall(r"(?:from|join)\s+([A-Za-z_][A-Za-z0-9_]*)\s+as\s+[lr]\b", sql)))
+    tr = Translator({n: cols for n in names}, {}, {n: types for n in names})
+    term, out_cols = tr.statement(sql)
+    if out_cols != ["match_key", "join_key_l", "join_key_r"]:
+        raise Untranslatable(f"the per-rule statement returns columns {out_cols}")
+    scope = [("l", c, t) for c, t in zip(cols, types)] + [("r", c, t) for c, t in zip(cols, types)]
+    for i in range(BLOCK_N_MARK):
+        m = tr.expr(sqlglot.parse_one(_block_marker(i), read="duckdb"), scope)
+        term = term.replace(m, f"@R{i}@")
+    nid = 2 if with_sd else 1
+
+    def col(mm):
+        k = int(mm.group(1))
+        if k < nid:
+            return f"(Expr.col {k})"
+        if W <= k < W + nid:
+            return "(Expr.col w)" if k == W else f"(Expr.col (w + {k - W}))"
+        raise Untranslatable(f"the statement reads column {k} of the joined row (a data column outside the rule, or a rule spliced without parentheses)")
+
+    term = re.sub(r"\(Expr\.col (\d+)\)", col, term)
+    term, n = re.subn(r'(\(Rel\.table "[^"]+"\)) ' + str(W) + r"\)", r"\1 w)", term)
+    if n != 1:
+        raise Untranslatable("the statement is not one join of two tables")
+    tl = re.search(r"from\s+([A-Za-z_][A-Za-z0-9_]*)\s+as\s+l\b", sql)
+    trr = re.search(r"join\s+([A-Za-z_][A-Za-z0-9_]*)\s+as\s+r\b", sql)
+    if not tl or not trr:
+        raise Untranslatable("the statement is not `from <t> as l inner join <t> as r`")
+    return term, (tl.group(1), trr.group(1))
+
+
+def capture_block():
+    """The statement `__splink__blocked_id_pairs` of `blocking.py: block_using_rules_sqls` as the real `deterministic_link` emits it, for the
+    four link types the code blocks with and several rule lists of marker rules.  Returns per link type the Lean terms of the per-rule
+    SELECT without / with preceding rules - parameters: `w` (number of columns of the left table; ids are its first columns), `mk`
+    (the match_key literal), `rule`, `excl` (the OR of the preceding rules' exclusion terms) -, the exclusion term of ONE preceding rule
+    (`exclOne`) and the rule substituted for an empty list.  Refuses (error strings) when a statement is anything but these templates."""
+    from splink.internals.blocking import BlockingRule
+
+    errors: list[str] = []
+    out = {"errors": errors, "lts": {}, "exclOne": None, "noRules": None}
+    excl_terms, norule_terms = set(), set()
+    for backend_lt, settings_lt, ntab, lean in BLOCK_LTS:
+        with_sd = settings_lt != "dedupe_only"
+        firsts, laters, tables, sqls = set(), set(), set(), {}
+        n_err = len(errors)
+        for idx in BLOCK_RULE_LISTS:
+            try:
+                sql, ci = _block_run(settings_lt, ntab, idx)
+                if (ci.source_dataset_input_column is not None) != with_sd:
+                    raise Untranslatable(f"link type {settings_lt}: source dataset column present = {ci.source_dataset_input_column is not None}")
+                parts = [p.strip() for p in re.split(r"\bUNION ALL\b", sql)]
+                if len(parts) != max(len(idx), 1):
+                    raise Untranslatable(f"{len(parts)} UNION ALL terms for {len(idx)} rules: {sql[:300]}")
+                # the exclusion term of one preceding rule, from the method the code builds it with
+                ex_sql = BlockingRule(_block_marker(0), "duckdb").exclude_pairs_generated_by_this_rule_sql(ci.source_dataset_input_column, ci.unique_id_input_column)
+                for pad in (0, 3):
+                    ex_term, _ = _block_translate(f"select '0' as match_key, l.unique_id as join_key_l, r.unique_id as join_key_r from t as l inner join t as r on {ex_sql}", with_sd, pad)
+                    mm = re.search(r"\(Rel\.join false (.*) \(Rel\.table \"t\"\) \(Rel\.table \"t\"\) w\)", ex_term)
+                    if not mm or mm.group(1).count("@R0@") != 1:
+                        raise Untranslatable(f"exclusion term of one rule: {ex_sql}")
+                    excl_one = mm.group(1)
+                    excl_terms.add(excl_one.replace("@R0@", "rule"))
+                    for k, part in enumerate(parts):
+                        term, tabs = _block_translate(part, with_sd, pad)
+                        tables.add(tabs)
+                        head = f'(Rel.project [(Expr.lit (Val.str "{k}")), '
+                        if not term.startswith(head):
+                            raise Untranslatable(f"rule {k}: match_key is not the literal '{k}': {part[:120]}")
+                        term = "(Rel.project [(Expr.lit mk), " + term[len(head):]
+                        if not idx:
+                            sqls.setdefault("first", part)
+                            norule_terms.add((lean, pad, term))
+                            continue
+                        me = f"@R{idx[k]}@"
+                        if term.count(me) != 1:
+                            raise Untranslatable(f"rule {k} occurs {term.count(me)} times outside the exclusion of preceding rules")
+                        term = term.replace(me, "rule")
+                        if k == 0:
+                            firsts.add(term)
+                            sqls.setdefault("first", part)
+                        else:
+                            ors = excl_one.replace("@R0@", f"@R{idx[0]}@")
+                            for j in idx[1:k]:
+                                ors = f"(Expr.or {ors} {excl_one.replace('@R0@', f'@R{j}@')})"
+                            if term.count(ors) != 1:
+                                raise Untranslatable(f"rule {k}: the exclusion of the preceding rules is not the left-nested OR of their exclusion terms: {part[:400]}")
+                            term = term.replace(ors, "excl")
+                            laters.add(term)
+                            sqls.setdefault("later", part)
+                        if "@R" in term:
+                            raise Untranslatable(f"rule {k}: another rule of the list occurs outside the exclusion term: {part[:400]}")
+            except Untranslatable as e:
+                errors.append(f"block/{backend_lt}/{idx}: {e}")
+            except Exception as e:  # noqa: BLE001
+                errors.append(f"block/{backend_lt}/{idx}: capture failed: {type(e).__name__}: {str(e)[:300]}")
+        if len(errors) > n_err:
+            continue  # a statement of this link type was refused: no definitions for it (its obligations cannot be discharged)
+        if len(firsts) != 1 or len(laters) != 1 or len(tables) != 1:
+            errors.append(f"block/{backend_lt}: the per-rule statements differ in more than the parameters ({len(firsts)} first forms, {len(laters)} later forms, tables {sorted(tables)})")
+            continue
+        out["lts"][lean] = {"first": firsts.pop(), "later": laters.pop(), "tables": tables.pop(), "sql": sqls, "backend": backend_lt}
+    # the rule of the empty list: the `first` template with a closed rule
+    rules0 = set()
+    for lean, pad, term in norule_terms:
+        if lean not in out["lts"]:
+            continue
+        pre, _, suf = out["lts"][lean]["first"].partition("rule")
+        if not (term.startswith(pre) and term.endswith(suf) and len(term) >= len(pre) + len(suf)):
+            errors.append(f"block/{lean}: with no rules the statement is not the first-rule statement on a substituted rule")
+            continue
+        rules0.add(term[len(pre): len(term) - len(suf)])
+    if len(rules0) == 1 and "Expr.col" not in next(iter(rules0)):
+        out["noRules"] = rules0.pop()
+    else:
+        errors.append(f"block: the rule substituted for an empty list is not one closed expression: {sorted(rules0)}")
+    if len(excl_terms) == 1:
+        out["exclOne"] = excl_terms.pop()
+    else:
+        errors.append(f"block: exclusion term of one preceding rule differs between link types / widths: {sorted(excl_terms)}")
+    return out
+
+
+def write_block() -> list[str]:
+    """(Re)generate Generated/BlockSql.lean.  Returns error strings."""
+    cap = capture_block()
+    errors = list(cap["errors"])
+    L = ["import SplinkVerif.Model.Rel"]
+    L.append("/-! GENERATED by harness/translate/tsql.py from the statement `__splink__blocked_id_pairs` that `blocking.py: block_using_rules_sqls`")
+    L.append("(`BlockingRule.create_blocked_pairs_sql`, `_sql_gen_where_condition`, `_composite_unique_id_from_nodes_sql`) emits on the current tree,")
+    L.append("captured from real `deterministic_link` runs with marker rules, for the four link types the code blocks with.  Do not edit.")
+    L.append("")
+    L.append("Parameters: `w` = number of columns of the left input table (layout: [source_dataset,] unique_id, data columns...; the joined row is")
+    L.append("l's columns then r's), `mk` = the match_key literal, `rule` = the blocking rule over the joined row, `excl` = the OR of the")
+    L.append("exclusion terms (`exclOne`) of the preceding rules. -/")
+    L.append("namespace SplinkVerif.Gen.BlockSql")
+    L.append("open SplinkVerif.Rel")
+    L.append("")
+    if cap["exclOne"] is not None:
+        L.append("/-- `BlockingRule.exclude_pairs_generated_by_this_rule_sql` -/")
+        L.append(f"def exclOne (rule : Expr) : Expr :=\n  {cap['exclOne']}")
+        L.append("")
+    if cap["noRules"] is not None:
+        L.append("/-- the rule `block_using_rules_sqls` substitutes for an empty rule list -/")
+        L.append(f"def noRulesRule : Expr :=\n  {cap['noRules']}")
+        L.append("")
+    for _, _, _, lean in BLOCK_LTS:
+        d = cap["lts"].get(lean)
+        if d is None:
+            L.append(f"-- UNTRANSLATABLE: {lean}")
+            continue
+        L.append(f"/-- {d['backend']}, a rule without preceding rules: `{d['sql'].get('first', '')}` -/")
+        L.append(f"def {lean}First (w : Nat) (mk : Val) (rule : Expr) : Rel :=\n  {d['first']}")
+        L.append("")
+        L.append(f"/-- {d['backend']}, a rule with preceding rules: `{d['sql'].get('later', '')}` -/")
+        L.append(f"def {lean}Later (w : Nat) (mk : Val) (rule excl : Expr) : Rel :=\n  {d['later']}")
+        L.append("")
+        L.append(f"/-- {d['backend']}: the tables joined as `l` and as `r` -/")
+        L.append(f"def {lean}Tables : String × String := ({lean_str(d['tables'][0])}, {lean_str(d['tables'][1])})")
+        L.append("")
+    L.append("end SplinkVerif.Gen.BlockSql")
+    text = "\n".join(L) + "\n"
+    p = GEN / "BlockSql.lean"
+    if not p.exists() or p.read_text() != text:
+        p.write_text(text)
+    return errors
+
+
 # --------------------------------------------------------------------------------------------------------------- isolation
-WRITERS = {"cc": "write_cc", "multi": "write_multi", "gm": "write_gm", "acc": "write_acc", "desc": "write_desc", "em": "write_em"}
+WRITERS = {"cc": "write_cc", "multi": "write_multi", "gm": "write_gm", "acc": "write_acc", "desc": "write_desc", "em": "write_em", "block": "write_block"}
 
 
 def run_isolated(which: str, timeout: int = 600) -> list[str]:
@@ -1336,6 +1569,6 @@ if __name__ == "__main__":
     import sys
 
     which = sys.argv[1] if len(sys.argv) > 1 else "cc"
-    errs = {"cc": write_cc, "multi": write_multi, "gm": write_gm, "acc": write_acc, "desc": write_desc, "em": write_em}[which]()
+    errs = {"cc": write_cc, "multi": write_multi, "gm": write_gm, "acc": write_acc, "desc": write_desc, "em": write_em, "block": write_block}[which]()
     print("\n".join(errs) or "ok")
-    print((GEN / {"cc": "CCSql.lean", "multi": "MultiSql.lean", "gm": "GMSql.lean", "acc": "AccSql.lean", "desc": "DescSql.lean", "em": "EMSql.lean"}[which]).read_text()[:12000])
+    print((GEN / {"cc": "CCSql.lean", "multi": "MultiSql.lean", "gm": "GMSql.lean", "acc": "AccSql.lean", "desc": "DescSql.lean", "em": "EMSql.lean", "block": "BlockSql.lean"}[which]).read_text()[:12000])
